@@ -93,6 +93,10 @@ def special_cases():
     one("s: .repeat e-s-4 { nop }\n.word 1\ne: nop\n")                   # the count depends on its own size: no cancellation
     one(".repeat b-a { .byte 1 }\n.even\na: .word 1\n.blkb 3\nb: nop\n")       # cancels through a constant fill
     one(".repeat b-a { .byte 1 }\na: .byte 1\n.even\nb: nop\n")               # does not: .even between a and b at an unknown address
+    one(".link 1000 + e - s\ns: nop\nnop\ne: .word e, s\n")                    # base through labels: the base cancels
+    one("nop\n. = 2000 + (e - s) * 2\ns: .blkb 3\n.even\ne: .word s\n")          # `. =` as base; an .even at an unknown address between: no
+    one(".link e - s + 3000\ns: .ascii /abc/\n.byte 1\ne: .word e\n.repeat (e - s) { nop }\n")   # base and a count
+    one(".link e\ne: nop\n")                                                # the base does not cancel
     one(".blkb l\nl: nop\n")                                         # count needs a later label: outside the subset
     one(".link l\nl: nop\n")                                         # base through a label: outside the subset
     one("push r0\npop r1\ncall @#100\nret\nreturn\nccc\nscc\n")
